@@ -33,7 +33,7 @@ MODULES = {
     "C15": ["C15", "GenKAC", "GenNumACFloat", "GenNumACInt", "GenNumAC1d", "GenNumACYxt", "GenNumACTyx", "GenGlueAutocorrAcc", T + "Autocorr", T + "AutocorrTyx"],
     "C16": ["C16", "GenKDoMean", "GenKDoMeanB", "GenGlueZonalMean", T + "DoMean"],
     "C17": ["C17", "C17round", "C17float", "GenKRS", "GenKRSround", "GenKMeanGrp", "GenKMeanGrpB", "GenGlueMeanGrp", "GenGlueRollingSumAcc", T + "MeanGrp", T + "RollingSum"],
-    "C18": ["C18", "GenKLroo", "GenGlueCroo", "GenGlueLrooAcc", T + "Lroo"], "C19": ["C19", "GenGlueIteragg"], "C20": ["C20", "GenNumTI", "GenGlueWhitint", T + "Tinterpolate"],
+    "C18": ["C18", "GenKLroo", "GenGlueCroo", "GenGlueLrooAcc", T + "Lroo"], "C19": ["C19", "GenGlueIteragg", "GenGlueWrappers"], "C20": ["C20", "GenNumTI", "GenGlueWhitint", T + "Tinterpolate"],
 }
 
 
